@@ -42,7 +42,7 @@ const uint64_t T_US[] = {1, 20, 50, 100, 200, 500, 1000};
 struct Alloc { char* p; size_t n; int freed; };
 std::vector<Alloc> allocs;
 int alloc_calls = 0, fail_at = -1;
-volatile int fail_armed = 0;       // only allocations made by plain thread_create() of a child may fail
+__thread int fail_armed = 0;       // only allocations made by plain thread_create() of a child (on this OS thread) may fail
 
 Child* child_of_stack(void* p, size_t n) {
     for (auto& c : kids) if (c.th && (char*)c.th >= (char*)p && (char*)c.th < (char*)p + n) return &c;
@@ -264,6 +264,16 @@ void harness_run(uint64_t seed) {
     snprintf(plan, sizeof plan, "{\"vcpus\":%d,\"parents\":%zu,\"children\":%zu,\"alloc_fail_at\":%d,\"ops\":%d}", W.nvcpu, scripts.size(), kids.size(), fail_at, n_ops);
     sim::extra_json("plan", plan);
     char nb[32]; snprintf(nb, sizeof nb, "%d", n_ops); sim::extra_json("nops", nb);
+    // Known finding C05-worksteal-switch-race (see known_findings.json): with active+passive work stealing, a stealable
+    // thread that yields or migrates itself can be taken by a stealer while it is still switching out. Runs in which
+    // that combination exists carry a tag, so that only they are attributed to the finding.
+    {
+        bool active = false, passive = false, risky_thread = false;
+        for (auto f : W.vcpu_flags) { if (f & VCPU_ENABLE_ACTIVE_WORK_STEALING) active = true; if (f & VCPU_ENABLE_PASSIVE_WORK_STEALING) passive = true; }
+        for (auto& c : kids) if (c.stealable) for (auto& st : c.steps) if (st.k == C_YIELD || st.k == C_MIGRATE_SELF) risky_thread = true;
+        if (active && passive && W.nvcpu > 1 && risky_thread)
+            sim::set_context_tag("[work stealing active+passive, and a stealable thread yields or migrates itself]");
+    }
     sim::set_poison_property("use-after-free-stack");
     set_photon_thread_stack_allocator(Delegate<void*, size_t>(&stack_alloc, nullptr), Delegate<void, void*, size_t>(&stack_dealloc, nullptr));
     pools.assign(W.nvcpu, nullptr);
